@@ -9,7 +9,8 @@ from tsg.build import AnalysisBroken
 RL = "TasGrid::RuleLocal::"
 HPP = "SparseGrids/tsgRuleLocalPolynomial.hpp"
 X = sympy.Symbol("x", real=True)
-POINTS = list(range(0, 13))
+from tsg.tier import pick
+POINTS = list(range(0, pick(13, 31)))
 # rational sample abscissae in the canonical variable of one basis function (both sides of the kink at 0)
 SAMPLES = [sympy.Rational(a, 8) for a in (-7, -5, -3, -1, 1, 3, 5, 7)]
 
@@ -103,8 +104,11 @@ def run(chk):
                         xs.append(sol[0])
                 xs += [s for s in SAMPLES if s not in xs]      # points whose basis is written directly in x
                 for xv in xs:
-                    if sympy.simplify(sx.subs(X, xv)) == 0:
+                    sv = sympy.simplify(sx.subs(X, xv))
+                    if sv == 0:
                         continue        # the node itself: the hat function has a kink there
+                    if sv.is_number and abs(sv) >= 1:
+                        continue        # on or outside the boundary of the support (the basis has a kink at the boundary): value and derivative are defined as 0 there through the isSupported flag, not through the closed form
                     try:
                         lv = sympy.nsimplify(de.subs(X, xv).doit())
                         rv = sympy.nsimplify(d.subs(X, xv))
@@ -115,7 +119,7 @@ def run(chk):
                         bad.append("point %d at x=%s: d/dx value = %s, diffSupport = %s" % (p, xv, lv, rv))
             nsup += ncase
             if ncase:
-                chk.ob("C05-D1.support", "diffSupport<%s>" % r, "order %d, points 0..12" % order, not bad, DS[r].where, "; ".join(bad[:2]) if bad else "%d exact evaluations agree" % ncase)
+                chk.ob("C05-D1.support", "diffSupport<%s>" % r, "order %d, points 0..%d" % (order, POINTS[-1]), not bad, DS[r].where, "; ".join(bad[:2]) if bad else "%d exact evaluations agree" % ncase)
     chk.floor("C05-D1.support", nsup, 300, "exact derivative evaluations")
 
     # not analysable: high order bases contain loops
